@@ -104,6 +104,11 @@ def main():
     import numpy as np
     n = 60000 if run.thorough else 5000
     nums = gen_numbers(run.rng, n)
+    # the same value again at another precision, on the same formatter (set_decimal_places between the two)
+    for _ in range(n // 15):
+        v, dp = run.rng.choice(nums)
+        nums.append((v, run.rng.choice([d for d in (0, 1, 2, 3, 5, 8, 12) if d != dp])))
+        nums.append((v, dp))
     f = DefaultFormatter()
     impl = []
     kinds = {}
